@@ -127,7 +127,8 @@ def execute(family, cfg, chooser, *, max_steps=None, real_timeout=120.0):
   simcfg = cfg.get('sim', {})
   s = sched.Sim(
       chooser,
-      max_steps=max_steps or simcfg.get('max_steps', 300_000),
+      max_steps=max_steps or max(simcfg.get('max_steps', 0),
+                                 getattr(family, 'max_steps', 300_000)),
       # with function-entry pre-emption one operation costs many more steps
       spin_k=simcfg.get('spin_k', 300) * (12 if simcfg.get('fine') else 1),
       real_timeout=real_timeout,
